@@ -156,8 +156,10 @@ class SetListV(V):
 @dataclass
 class OpaqueV(V):
     """a value whose content the contract does not care about (decoded strings, parsed XML ...): any attribute / call on it is
-    again opaque; it can be stored and passed around but not branched on"""
+    again opaque.  Branching on it explores both outcomes; its truth value is one (memoised) unknown Boolean."""
     tag: str = "opaque"
+    truth: object = None
+    memo: dict = field(default_factory=dict)  # (relation, constant) -> Bool: the same question about the same value gets the same answer
 
 
 @dataclass
@@ -400,6 +402,14 @@ class Engine:
             return z3.BoolVal(bool(v.s))
         if isinstance(v, TupleV):
             return z3.BoolVal(len(v.items) > 0)
+        if isinstance(v, OpaqueV):
+            if v.truth is None:
+                v.truth = fresh("opaque_truth", B)  # unknown value: both outcomes are explored, consistently for this value
+            return v.truth
+        if isinstance(v, BoundMethod) and isinstance(v.recv, OpaqueV):
+            return fresh("opaque_truth", B)
+        if isinstance(v, SetListV):
+            return v.n > 0
         raise Unsupported(f"truthiness of {type(v).__name__}")
 
     def as_int(self, v, st, node):
@@ -410,12 +420,24 @@ class Engine:
             return z3.If(v.e, z3.IntVal(1), z3.IntVal(0))
         if isinstance(v, IntV):
             return v.e
+        if isinstance(v, OpaqueV) or (getattr(self.model, "gate_mode", False) and isinstance(v, (BoundMethod, FuncRef, ObjV, BytesV, StrV, NoneV, TupleV))):
+            return fresh("opaque_int")
         raise Unsupported(f"int operand expected, got {type(v).__name__}@{getattr(node, 'lineno', 0)}")
 
     # ---------------------------------------------------------------- expressions
     def ev(self, node, st: State) -> V:
         m = getattr(self, "ev_" + type(node).__name__, None)
         if m is None:
+            if getattr(self.model, "gate_mode", False):
+                # gate mode: an expression outside the subset is an unknown value; its sub-expressions are still evaluated for calls
+                # that matter (parses) where that is cheap
+                for ch in ast.iter_child_nodes(node):
+                    if isinstance(ch, ast.expr) and not isinstance(ch, (ast.Lambda, ast.comprehension)):
+                        try:
+                            self.ev(ch, st)
+                        except Unsupported:
+                            pass
+                return OpaqueV(type(node).__name__)
             raise Unsupported(f"expr {type(node).__name__}@{node.lineno}")
         return m(node, st)
 
@@ -443,6 +465,8 @@ class Engine:
             return FuncRef(n.id)
         if n.id in ("min", "max", "divmod", "len", "range", "int", "bool", "abs", "isinstance", "hasattr", "getattr", "bytes"):
             return FuncRef(n.id)
+        if getattr(self.model, "gate_mode", False):
+            return OpaqueV(f"name:{n.id}")
         raise Unsupported(f"name {n.id}@{n.lineno}")
 
     def ev_Attribute(self, n, st):
@@ -456,8 +480,12 @@ class Engine:
             return self.model.attr(self, st, base.path, n.attr, n)
         if isinstance(base, (FileV, ListV, BytesV, SeqV, SetListV)):
             return BoundMethod(base, n.attr)
+        if isinstance(base, FuncRef) and base.name == "int":
+            return BoundMethod(base, n.attr)
         if isinstance(base, OpaqueV):
             return BoundMethod(base, n.attr)
+        if getattr(self.model, "gate_mode", False):
+            return BoundMethod(OpaqueV(f"attr:{n.attr}"), n.attr)
         if isinstance(base, OptV) and isinstance(base.val, ObjV):
             self.may_raise("AttributeError", st, z3.Not(base.is_none), n)
             return self.ev_attr_on(base.val, n, st)
@@ -471,6 +499,8 @@ class Engine:
     def ev_BinOp(self, n, st):
         l, r = self.ev(n.left, st), self.ev(n.right, st)
         op = type(n.op).__name__
+        if isinstance(l, OpaqueV) or isinstance(r, OpaqueV):
+            return OpaqueV("binop")
         # bytes operations
         if op == "Mult":
             for a, b in ((l, r), (r, l)):
@@ -503,7 +533,12 @@ class Engine:
             if lb and rb and (lb[1] <= rb[0] or rb[1] <= lb[0]):
                 return IntV(a + b, (min(lb[0], rb[0]), max(lb[1], rb[1])))
             raise Unsupported(f"| with two symbolic operands whose bit ranges are not known to be disjoint@{n.lineno}")
-        res = self.int_binop(op, a, b, st, n)
+        try:
+            res = self.int_binop(op, a, b, st, n)
+        except Unsupported:
+            if getattr(self.model, "gate_mode", False):
+                return OpaqueV("binop")
+            raise
         bits = None
         if op == "BitAnd":
             mv = bs_ if z3.is_int_value(bs_) else (as_ if z3.is_int_value(as_) else None)
@@ -543,6 +578,12 @@ class Engine:
         if op == "LShift":
             if z3.is_int_value(bs) and bs.as_long() >= 0:
                 return a * (1 << bs.as_long())
+            if z3.is_int_value(as_) and as_.as_long() >= 0:
+                # constant << symbolic amount: exact for 0 <= amount < 64, an unknown value otherwise
+                e = fresh("shl_out_of_range")
+                for k in range(63, -1, -1):
+                    e = z3.If(b == k, z3.IntVal(as_.as_long() << k), e)
+                return e
             raise Unsupported(f"<< with symbolic shift@{n.lineno}")
         if op == "BitAnd":
             if z3.is_int_value(bs) and bs.as_long() >= 0:
@@ -594,6 +635,8 @@ class Engine:
             inner = z3.BoolVal(lv.s == rv.s)
         elif isinstance(lv, ObjV) and isinstance(rv, ObjV):
             inner = self.model.obj_eq(lv.path, rv.path)
+        elif getattr(self.model, "gate_mode", False):
+            inner = fresh("opaque_eq", B)
         else:
             raise Unsupported(f"== between {type(lv).__name__} and {type(rv).__name__}@{n.lineno}")
         return z3.And(z3.Not(ln), z3.Not(rn), inner) if not (z3.is_false(ln) and z3.is_false(rn)) else inner
@@ -608,6 +651,21 @@ class Engine:
         return BoolV(parts[0] if len(parts) == 1 else z3.And(*parts))
 
     def compare1(self, op, l, r, st, n):
+        if isinstance(l, OpaqueV) or isinstance(r, OpaqueV):
+            o, other, side = (l, r, "l") if isinstance(l, OpaqueV) else (r, l, "r")
+            const = other.s if isinstance(other, StrV) else ("None" if isinstance(other, NoneV) else (z3.simplify(other.e).as_long() if isinstance(other, IntV) and z3.is_int_value(z3.simplify(other.e)) else None))
+            if const is None and isinstance(other, BytesV) and z3.is_int_value(z3.simplify(other.n)) and z3.simplify(other.n).as_long() <= 64:
+                vals = [z3.simplify(other.at(z3.IntVal(i))) for i in range(z3.simplify(other.n).as_long())]
+                if all(z3.is_int_value(v) for v in vals):
+                    const = bytes(v.as_long() for v in vals)
+            if const is not None:
+                pos = {"Eq": ("eq", True), "NotEq": ("eq", False), "In": ("in" + side, True), "NotIn": ("in" + side, False), "Is": ("eq", True), "IsNot": ("eq", False)}.get(op)
+                if pos:
+                    key = (pos[0], const)
+                    if key not in o.memo:
+                        o.memo[key] = fresh("opaque_rel", B)
+                    return o.memo[key] if pos[1] else z3.Not(o.memo[key])
+            return fresh("opaque_cmp", B)
         if op in ("Is", "IsNot"):
             if isinstance(r, NoneV):
                 if isinstance(l, ObjV):
@@ -692,6 +750,10 @@ class Engine:
             return IntV(z3.If(c, ai, bi))
         if isinstance(a, BytesV) and isinstance(b, BytesV):
             return BytesV(z3.If(c, a.n, b.n), lambda i, a=a, b=b, c=c: z3.If(c, a.at(i), b.at(i)))
+        if isinstance(a, ObjV) and isinstance(b, ObjV) and hasattr(self.model, "merge_obj"):
+            return self.model.merge_obj(self, c, a, b)
+        if isinstance(a, OpaqueV) or isinstance(b, OpaqueV):
+            return OpaqueV("merge")
         an, av = self.opt_parts(a)
         bn, bv = self.opt_parts(b)
         if av is None and bv is None:
@@ -740,6 +802,10 @@ class Engine:
 
     def ev_Subscript(self, n, st):
         base = self.ev(n.value, st)
+        if isinstance(base, OpaqueV) or (getattr(self.model, "gate_mode", False) and isinstance(base, (BoundMethod, FuncRef))):
+            if not isinstance(n.slice, ast.Slice):
+                self.ev(n.slice, st)
+            return OpaqueV("item")
         if isinstance(base, OptV) and isinstance(base.val, BytesV):
             self.may_raise("TypeError", st, z3.Not(base.is_none), n)
             base = base.val
@@ -774,6 +840,17 @@ class Engine:
             if r is not None:
                 return r
             return self.model.call_global(self, st, f.name, args, n, **kwargs)
+        if isinstance(f, BoundMethod) and isinstance(f.recv, FuncRef) and f.recv.name == "int" and f.name == "from_bytes":
+            b, order = args[0], (args[1] if len(args) > 1 else kwargs.get("byteorder"))
+            ln = z3.simplify(b.n) if isinstance(b, BytesV) else None
+            if isinstance(b, BytesV) and isinstance(order, StrV) and z3.is_int_value(ln) and ln.as_long() <= 16 and not kwargs.get("signed"):
+                k = ln.as_long()
+                idx = range(k) if order.s == "big" else range(k - 1, -1, -1)
+                e = z3.IntVal(0)
+                for i in idx:
+                    e = e * 256 + b.at(z3.IntVal(i))
+                return IntV(e)
+            raise Unsupported(f"int.from_bytes on a value of symbolic length@{n.lineno}")
         if isinstance(f, BoundMethod):
             recv = f.recv
             if isinstance(recv, ObjV):
@@ -814,6 +891,10 @@ class Engine:
                     if isinstance(lst, ListV):
                         return lst.joined
                 raise Unsupported(f"join@{n.lineno}")
+        if isinstance(f, OpaqueV) or (isinstance(f, BoundMethod) and isinstance(f.recv, OpaqueV)):
+            return OpaqueV("call")
+        if getattr(self.model, "gate_mode", False):
+            return self.model.unknown_call(self, st, f, args, kwargs, n)
         raise Unsupported(f"call {ast.unparse(n)[:60]}@{n.lineno}")
 
     def call_builtin(self, name, args, st, n):
@@ -837,6 +918,12 @@ class Engine:
                 return IntV(z3.IntVal(len(a.items)))
             if isinstance(a, ObjV):
                 return self.model.len_(self, st, a.path, n)
+            if getattr(self.model, "gate_mode", False):
+                if isinstance(a, BoundMethod) and isinstance(a.recv, ObjV):
+                    stt = self.model.struct_type(a.recv.path, a.name)
+                    if stt is not None:
+                        return IntV(z3.IntVal(len(stt[1])))
+                return OpaqueV("len")
             raise Unsupported(f"len of {type(a).__name__}@{n.lineno}")
         if name == "abs":
             x = self.as_int(args[0], st, n)
@@ -862,6 +949,9 @@ class Engine:
             if len(args) > 1:
                 w = z3.simplify(self.as_int(args[1], st, n))
                 if not z3.is_int_value(w):
+                    if getattr(self.model, "gate_mode", False):
+                        st.filepos[name] = fresh(f"pos_{name}")
+                        return IntV(st.filepos[name])
                     raise Unsupported("symbolic whence")
                 whence = w.as_long()
             if whence == 0:
@@ -889,6 +979,8 @@ class Engine:
             st.ghost["io"] = st.ghost.get("io", z3.IntVal(0)) + ln
             st.ghost["io_calls"] = st.ghost.get("io_calls", z3.IntVal(0)) + 1
             return BytesV(ln, lambda i, pos=pos, fat=fat: fat(pos + i))
+        if getattr(self.model, "gate_mode", False):
+            return OpaqueV(f"file.{op}")
         raise Unsupported(f"file op {op}@{n.lineno}")
 
     # ---------------------------------------------------------------- statements
@@ -962,6 +1054,8 @@ class Engine:
                 st.attrs[f"{base.path}.{tgt.attr}"] = v
         elif isinstance(tgt, ast.Subscript):
             base = self.ev(tgt.value, st)
+            if isinstance(base, OpaqueV) or (getattr(self.model, "gate_mode", False) and not isinstance(base, ObjV)):
+                return  # store into an unknown container: no effect on anything the contracts read
             if not isinstance(base, ObjV):
                 raise Unsupported(f"subscript store on {type(base).__name__}@{node.lineno}")
             self.model.setitem(self, st, base.path, self.ev(tgt.slice, st), v, node)
@@ -1129,7 +1223,38 @@ class Engine:
             raise Unsupported(f"loop {kind}#{o}@{s.lineno} has no invariant in the sidecar")
         return spec, f"loop.{kind}{o}"
 
+    def _havoc_loop(self, s, st):
+        """gate mode: a loop without invariant is over-approximated: every variable / self attribute it assigns becomes unknown;
+        the body is executed once from that state only to find the ways control can leave the function from inside the loop"""
+        def hav(state):
+            for m_ in self._modified_names(s):
+                state.env[m_] = OpaqueV("loopvar")
+            for n_ in ast.walk(s):
+                tg = n_.targets if isinstance(n_, ast.Assign) else ([n_.target] if isinstance(n_, (ast.AugAssign, ast.AnnAssign)) else [])
+                for t in tg:
+                    if isinstance(t, ast.Attribute) and isinstance(t.value, ast.Name) and t.value.id == "self":
+                        state.attrs[f"self.{t.attr}"] = OpaqueV("loopattr")
+            for k in list(state.filepos):
+                state.filepos.pop(k)
+
+        skip = st.fork()
+        hav(skip)
+        body = st.fork()
+        hav(body)
+        if isinstance(s, ast.For):
+            self.assign(s.target, OpaqueV("elem"), body, s)
+        outs = [(skip, None)]
+        for e, out in self.run(s.body, body):
+            if out in (None, "continue", "break"):
+                hav(e)
+                outs.append((e, None))
+            else:
+                outs.append((e, out))
+        return outs
+
     def st_While(self, s, st):
+        if getattr(self.model, "gate_mode", False) and ("While", self.ordinal(s)) not in self.loops:
+            return self._havoc_loop(s, st)
         spec, lname = self._loop_spec(s, "While")
         if s.orelse:
             raise Unsupported("while-else")
@@ -1159,6 +1284,10 @@ class Engine:
         return outs
 
     def st_For(self, s, st):
+        if getattr(self.model, "gate_mode", False) and ("For", self.ordinal(s)) not in self.loops:
+            pre = self.ev(s.iter, st)
+            if not (isinstance(pre, TupleV) and len(pre.items) <= 16):
+                return self._havoc_loop(s, st)
         if s.orelse:
             raise Unsupported("for-else")
         it = s.iter
@@ -1173,6 +1302,23 @@ class Engine:
                 raise Unsupported("range step")
             return self._for_index(s, st, lo, hi, lambda e, i: IntV(i))
         src = self.ev(it, st)
+        if isinstance(src, TupleV) and len(src.items) <= 16:
+            # loop over a literal tuple/list: unrolled exactly
+            states = [(st, None)]
+            done = []
+            for el in src.items:
+                nxt = []
+                for cur, out in states:
+                    self.assign(s.target, el, cur, s)
+                    for e, o2 in self.run(s.body, cur):
+                        if o2 in (None, "continue"):
+                            nxt.append((e, None))
+                        elif o2 == "break":
+                            done.append((e, None))
+                        else:
+                            done.append((e, o2))
+                states = nxt
+            return done + states
         if isinstance(src, BytesV):
             return self._for_index(s, st, z3.IntVal(0), src.n, lambda e, i, src=src: IntV(src.at(i)))
         if isinstance(src, SeqV):
